@@ -23,6 +23,8 @@ var textErrorForms = []string{
 	"set ka x 0 1\r\n", "set ka 0 x 1\r\n", "set ka 0 0 x\r\n", "set ka 0 0\r\n", "add ka 0 0 -1\r\n",
 	"replace ka 4294967296 0 1\r\n", "touch ka x\r\n", "touch ka\r\n", "get\r\n", "delete\r\n", "delete ka kb\r\n",
 	"append ka 0 0 99999999999\r\n", "version now\r\n", "noop x\r\n",
+	// an empty or blank request line is a request too: one error line, nothing lost behind it
+	"\r\n", " \r\n", "   \r\n", "\r\n",
 }
 
 // c08Pipeline builds a pipeline: data commands mixed with error forms and admin commands.
